@@ -39,6 +39,7 @@ type snapFile struct {
 	cnt, chn, lst uint64
 	decodable bool
 	tainted   bool // flagged by C10 label/content oracle
+	seqClose uint64
 	mixOlderSameTerm bool // a chunk of an older snapshot, same term, was written into this (newer) file
 	mixOther         bool // any other label mismatch between a chunk and the file it was written to
 }
@@ -116,6 +117,7 @@ type NodeSh struct {
 	leaderOf map[uint64]bool
 	role     string
 
+	closedSnaps  []*snapFile
 	mixedInstall bool // the recorded mixed-snapshot defect happened on this node (narrow taint)
 }
 
@@ -196,6 +198,8 @@ type Monitor struct {
 
 	// Puppet mode: one real node, peers played by the harness, requests strictly sequential.
 	Puppet bool
+	// set once requests overlapped in a puppet case: exact before/after reasoning is off from then on
+	concurrent bool
 }
 
 func New() *Monitor {
@@ -400,6 +404,10 @@ func (m *Monitor) feed(ev *Event) {
 		m.Phase = ev.Str
 	case KPuppet:
 		m.Puppet = true
+	case KNote:
+		if ev.Str == "concurrent-requests" {
+			m.concurrent = true
+		}
 	case KWorldCommit:
 		// entries the scripted world declares committed (announced by a puppet leader)
 		for _, e := range ev.Ents {
@@ -655,8 +663,8 @@ func (m *Monitor) onLogCompact(ev *Event) {
 		m.violate(ev, []string{"C11"}, "compact-out-of-range", n.ID, "node %s compacted at %d, shadow holds (%d,%d]", n.ID, idx, n.base.Index, n.lastIndex())
 		return
 	}
-	if idx > n.snapLabelIdx {
-		m.violate(ev, []string{"C11"}, "compact-beyond-snapshot", n.ID, "node %s compacted its log through %d but its newest snapshot covers only %d", n.ID, idx, n.snapLabelIdx)
+	if idx > n.maxSnapLabel() {
+		m.violate(ev, []string{"C11"}, "compact-beyond-snapshot", n.ID, "node %s compacted its log through %d but no completed snapshot on it covers more than %d", n.ID, idx, n.maxSnapLabel())
 	}
 	cut := idx - n.base.Index
 	nb := Entry{Index: e.Index, Term: e.Term}
@@ -688,14 +696,17 @@ func (m *Monitor) onLogDiscard(ev *Event) {
 			}
 		}
 	}
-	if ev.Idx > n.snapLabelIdx {
-		m.violate(ev, []string{"C11"}, "discard-beyond-snapshot", n.ID, "node %s discarded its log to %d but its newest snapshot covers only %d", n.ID, ev.Idx, n.snapLabelIdx)
+	if ev.Idx > n.maxSnapLabel() {
+		m.violate(ev, []string{"C11"}, "discard-beyond-snapshot", n.ID, "node %s discarded its log to %d but no completed snapshot on it covers more than %d", n.ID, ev.Idx, n.maxSnapLabel())
 	}
 	n.haveLog = true
 	n.base = Entry{Index: ev.Idx, Term: ev.Term}
-	if n.snapLabelIdx == ev.Idx && n.snapLabelTerm != ev.Term {
-		m.violate(ev, []string{"C11"}, "discard-term-mismatch", n.ID, "node %s reset its log to (index %d, term %d) but the snapshot it installed says last included term %d: last-term answers now differ from a node holding the full log", n.ID, ev.Idx, ev.Term, n.snapLabelTerm)
-		n.base.Term = n.snapLabelTerm // the shadow keeps the truth
+	for _, f := range n.closedSnaps {
+		if f.idx == ev.Idx && f.term != ev.Term {
+			m.violate(ev, []string{"C11"}, "discard-term-mismatch", n.ID, "node %s reset its log to (index %d, term %d) but the snapshot it installed says last included term %d: last-term answers now differ from a node holding the full log", n.ID, ev.Idx, ev.Term, f.term)
+			n.base.Term = f.term // the shadow keeps the truth
+			break
+		}
 	}
 	n.ents = nil
 	if n.kMark > ev.Idx {
@@ -870,11 +881,17 @@ func (m *Monitor) onSnapClose(ev *Event) {
 	n := m.node(f.node)
 	delete(n.openSnap, f.id)
 	f.closed = true
+	f.seqClose = ev.Seq
 	f.size = ev.Num
 	f.hash = ev.Hash
 	f.cnt, f.chn, f.lst, f.decodable = ev.Cnt, ev.Chn, ev.Lst, ev.Flag
-	n.snapLabelIdx, n.snapLabelTerm = f.idx, f.term
-	n.snapLast = f
+	// the file-backed storage orders snapshots by the time they were created: the node's newest snapshot
+	// is the completed one that was created last
+	if n.snapLast == nil || f.seqNew > n.snapLast.seqNew {
+		n.snapLabelIdx, n.snapLabelTerm = f.idx, f.term
+		n.snapLast = f
+	}
+	n.closedSnaps = append(n.closedSnaps, f)
 	if f.via == 0 {
 		// locally taken: label = content (C10 (1))
 		m.Counts["c10.local_snapshots"]++
@@ -939,18 +956,33 @@ func (m *Monitor) onSnapClose(ev *Event) {
 
 func (m *Monitor) onSnapOpen(ev *Event) {
 	n := m.node(ev.Node)
+	// ev.Cnt = logical time just before the storage was asked.
 	if !ev.Flag {
-		if n.snapLast != nil {
-			m.violate(ev, []string{"C13"}, "snapshot-lost", n.ID, "node %s: SnapshotFile() returned nothing although snapshot (index %d) was completed", n.ID, n.snapLast.idx)
+		for _, f := range n.closedSnaps {
+			if f.seqClose <= ev.Cnt {
+				m.violate(ev, []string{"C13", "C11"}, "snapshot-lost", n.ID, "node %s: SnapshotFile() returned nothing although snapshot (index %d) was completed", n.ID, f.idx)
+				break
+			}
 		}
 		return
 	}
-	if n.snapLast == nil {
+	if len(n.closedSnaps) == 0 {
 		return
 	}
-	f := n.snapLast
-	if ev.Idx != f.idx || ev.Term != f.term || ev.Hash != f.hash || ev.Num != f.size {
-		m.violate(ev, []string{"C13"}, "snapshot-not-newest", n.ID, "node %s: SnapshotFile() returned (index %d, term %d, %d bytes), most recently completed is (index %d, term %d, %d bytes)", n.ID, ev.Idx, ev.Term, ev.Num, f.idx, f.term, f.size)
+	// never a partial or unknown snapshot: the returned one must be byte-identical to a completed one
+	known := false
+	for _, f := range n.closedSnaps {
+		if ev.Idx == f.idx && ev.Term == f.term && ev.Hash == f.hash && ev.Num == f.size {
+			known = true
+			break
+		}
+	}
+	if !known {
+		m.violate(ev, []string{"C13", "C11"}, "snapshot-unknown", n.ID, "node %s: SnapshotFile() returned (index %d, term %d, %d bytes) which is no snapshot completed on that node", n.ID, ev.Idx, ev.Term, ev.Num)
+	}
+	// the snapshot a node (re)loads must cover everything its log no longer holds
+	if n.haveLog && ev.Idx < n.base.Index {
+		m.violate(ev, []string{"C11", "C14"}, "snapshot-behind-log", n.ID, "node %s: SnapshotFile() returned the snapshot labelled %d but its log has been compacted through %d: entries %d..%d are gone", n.ID, ev.Idx, n.base.Index, ev.Idx+1, n.base.Index)
 	}
 }
 
@@ -1233,7 +1265,7 @@ func (m *Monitor) onSample(ev *Event) {
 	if s.Applied > s.Commit {
 		m.violate(ev, []string{"C11"}, "applied-beyond-commit", n.ID, "node %s applied index %d > commit index %d", n.ID, s.Applied, s.Commit)
 	}
-	if m.Puppet && ev.Via != 0 {
+	if m.Puppet && ev.Via != 0 && !m.concurrent {
 		if mi := m.msgs[ev.Via]; mi != nil && mi.m.Kind == "AE" && n.lastSample != nil && n.lastSampleInc == ev.Inc {
 			before := n.lastSample.Commit
 			m.Counts["c06.commit_bound_checks"]++
@@ -1353,4 +1385,14 @@ func (m *Monitor) canonFromK(idx uint64) (cnt, chn uint64, ok bool) {
 		}
 	}
 	return cnt, chn, true
+}
+
+func (n *NodeSh) maxSnapLabel() uint64 {
+	var mx uint64
+	for _, f := range n.closedSnaps {
+		if f.idx > mx {
+			mx = f.idx
+		}
+	}
+	return mx
 }
